@@ -104,13 +104,36 @@ type Transfer struct {
 	Lease    uint64
 }
 
+// LiveMin: lease tokens are wall-clock deadlines in nanoseconds; anything at or above this value is a
+// deadline in the future ("live", rendered `L`: its exact value is not reproducible), anything below is a
+// stale token (imports carry small numbers).
+const LiveMin = uint64(1_000_000_000_000_000)
+
+func LeaseTok(l uint64) string {
+	if l >= LiveMin {
+		return "L"
+	}
+	return strconv.FormatUint(l, 10)
+}
+
+// LiveLease is a fresh live token (one hour ahead: it outlives every run).
+func LiveLease() uint64 { return uint64(time.Now().Add(time.Hour).UnixNano()) }
+
+func UnLeaseTok(s string) uint64 {
+	if s == "L" {
+		return LiveLease()
+	}
+	l, _ := strconv.ParseUint(s, 10, 64)
+	return l
+}
+
 func transfersTok(ts []Transfer) string {
 	if len(ts) == 0 {
 		return "_"
 	}
 	p := make([]string, len(ts))
 	for i, t := range ts {
-		p[i] = Tok(t.Value) + "/" + ListTok(t.Children) + "/" + strconv.FormatUint(t.Lease, 10)
+		p[i] = Tok(t.Value) + "/" + ListTok(t.Children) + "/" + LeaseTok(t.Lease)
 	}
 	return strings.Join(p, "|")
 }
@@ -122,7 +145,7 @@ func unTransfersTok(s string) []Transfer {
 	var res []Transfer
 	for _, t := range strings.Split(s, "|") {
 		p := strings.Split(t, "/")
-		l, _ := strconv.ParseUint(p[2], 10, 64)
+		l := UnLeaseTok(p[2])
 		res = append(res, Transfer{Value: UnTok(p[0]), Children: UnListTok(p[1]), Lease: l})
 	}
 	return res
@@ -285,7 +308,7 @@ func Snapshot(kv *aof.DiskKV, keys [][]byte) string {
 		if len(ct) > 0 {
 			cj = strings.Join(ct, ",")
 		}
-		parts = append(parts, Tok(k)+"="+Tok(v)+"/"+cj+"/"+strconv.FormatUint(lease, 10))
+		parts = append(parts, Tok(k)+"="+Tok(v)+"/"+cj+"/"+LeaseTok(lease))
 	}
 	if len(parts) == 0 {
 		return "-"
